@@ -102,8 +102,18 @@ fn bins(n: usize) -> IndexMap<usize, Bin> {
     (0..).filter(|&i| i != 37450).take(n).map(|i| (i, Bin::new(vec![chunk(i)]))).collect()
 }
 
+/// ASCII names mixed with valid multibyte UTF-8 names (2-, 3- and 4-byte characters).
 fn names(n: usize) -> ReferenceSequenceNames {
-    (0..n).map(|i| BString::from(format!("c{i}"))).collect()
+    (0..n)
+        .map(|i| {
+            BString::from(match i % 4 {
+                0 => format!("c{i}"),
+                1 => format!("c\u{3b1}{i}"),
+                2 => format!("\u{67d3}{i}"),
+                _ => format!("c\u{1d7d9}{i}"),
+            })
+        })
+        .collect()
 }
 
 /// A last, non-empty reference sequence so that a truncated or misaligned read cannot look right.
@@ -242,7 +252,10 @@ fn check_tabix(field: Field, n: usize, refs: Vec<ReferenceSequence<LinearIndex>>
     d.add((field as u8 as usize, n, buf.len()));
     verdict(field, n, "blocking", beyond, &ix, tabix::io::Reader::new(&buf[..]).read_index(), sum_linear)?;
     let got = block_on(async { tabix::r#async::io::Reader::new(&buf[..]).read_index().await });
-    verdict(field, n, "async", beyond, &ix, got, sum_linear)
+    verdict(field, n, "async", beyond, &ix, got, sum_linear)?;
+    // async writer -> blocking reader
+    let got = crate::roundtrip::tabix_async_write(&ix).and_then(|b| tabix::io::Reader::new(&b[..]).read_index());
+    verdict(field, n, "blocking-after-async-writer", beyond, &ix, got, sum_linear)
 }
 
 fn check_csi(field: Field, n: usize, depth: u8, refs: Vec<ReferenceSequence<BinnedIndex>>, nm: Option<ReferenceSequenceNames>, beyond: bool, d: &Distinct) -> Outcome {
@@ -263,7 +276,9 @@ fn check_csi(field: Field, n: usize, depth: u8, refs: Vec<ReferenceSequence<Binn
     d.add((field as u8 as usize, n, buf.len()));
     verdict(field, n, "blocking", beyond, &ix, csi::io::Reader::new(&buf[..]).read_index(), sum_binning)?;
     let got = block_on(async { csi::r#async::io::Reader::new(&buf[..]).read_index().await });
-    verdict(field, n, "async", beyond, &ix, got, sum_binning)
+    verdict(field, n, "async", beyond, &ix, got, sum_binning)?;
+    let got = crate::roundtrip::csi_async_write(&ix).and_then(|b| csi::io::Reader::new(&b[..]).read_index());
+    verdict(field, n, "blocking-after-async-writer", beyond, &ix, got, sum_binning)
 }
 
 fn check(field: Field, n: usize, d: &Distinct) -> Outcome {
@@ -283,7 +298,10 @@ fn check(field: Field, n: usize, d: &Distinct) -> Outcome {
         Field::TabixIntervals => check_tabix(field, n, one_linear(bins(1), (0..n).map(|i| vp(i as u64 % 5)).collect()), names(2), false, d),
         Field::TabixNameBytes => {
             // one name of n bytes (n = 0: the empty name) followed by a short one
-            let nm: ReferenceSequenceNames = [BString::from(vec![b'x'; n]), BString::from("tail")].into_iter().collect();
+            // (n bytes made of 2-byte characters, padded with one ASCII byte when n is odd)
+            let mut long = "\u{3b1}".repeat(n / 2).into_bytes();
+            long.resize(n, b'x');
+            let nm: ReferenceSequenceNames = [BString::from(long), BString::from("tail")].into_iter().collect();
             check_tabix(field, n, linear_refs(2), nm, false, d)
         }
         Field::GziEntries => {
